@@ -19,7 +19,8 @@
 (*                 (ok | err | panic | auto = the loader decrypted with the empty password),          *)
 (*                 fk = lopdf's file key eq | ne | na, bad = kinds of items whose plaintext differs;   *)
 (*                 dlen = the Length entry of the Encrypt dictionary (-1 none), canonOpens = the same  *)
-(*                 attempt succeeds when Length has its canonical form CanonLength                     *)
+(*                 attempt succeeds on the canonical document (CanonLength, form "canon", no optional     *)
+(*                 content); form = the form of the dictionary (Forms), feature = optional content       *)
 (*    ev = "env"   lopdf's writer / loader did not transport the document (not judged)               *)
 (*  every record: hist = the predefined one-byte encodings the recording process converted text to     *)
 (*  (Document::encode_text) before the judged computation, in call order                               *)
@@ -82,10 +83,16 @@ JudgeObs(r) ==
         generic == r.obs \o "." \o RS(r) \o (IF r.kind = "" THEN "" ELSE "." \o m \o "." \o r.kind)
                          \o (IF r.role = "" THEN "" ELSE "." \o r.role)
         sig ==
-            IF HistoryClass(r, <<r.user, r.owner>>) /\ r.obs \notin {"objkey", "ct"}
+            IF HistoryClass(r, <<r.user, r.owner>>) /\ r.obs \in {"O", "U", "fk", "r.auth", "r.fk"}
             THEN "password-encoding.history.R234"   \* Algorithm 2 (a): PDFDocEncoding of the text, whatever was converted before
             ELSE IF r.obs = "O" /\ R <= 4 /\ Len(r.owner) = 0 /\ Len(r.user) # 0
             THEN "O.R234.owner-absent"            \* Algorithm 3 (a): no owner password => use the user password
+            ELSE IF r.obs \in {"ct", "pt"} /\ r.kind = "str.sigcontents"
+            THEN "signature.contents"             \* the Contents of a signature dictionary is not encrypted
+            ELSE IF r.obs \in {"ct", "pt"} /\ r.kind = "stream.cryptid" /\ r.cfg.V >= 4
+            THEN "crypt-filter.no-params"         \* Crypt filter without Name: Identity
+            ELSE IF r.obs \in {"ct", "pt"} /\ r.kind # "" /\ Subject(r.cfg, r.kind) /\ m = "Identity"
+            THEN "identity-filter.V" \o ToString(r.cfg.V)   \* the standard crypt filter Identity passes the data through
             ELSE IF r.obs \in {"ct", "pt"} /\ r.kind = "str.streamdict" /\ IsoSubject(r.kind, r.cfg.meta)
             THEN "streamdict.string"              \* a string in a stream dictionary is a string
             ELSE IF r.obs \in {"Perms", "r.perms.ok"} /\ R >= 5 /\ r.note = "stored-plaintext"
@@ -122,13 +129,29 @@ JudgeOpen(r) ==
         cfgs == RS(r) \o "." \o r.cfg.stmf \o "." \o r.cfg.strf
         bads == {r.bad[i] : i \in 1..Len(r.bad)}
         opened == r.res \in {"ok", "auto"}
+        nopanic == "panic" \notin {r.authU, r.authO, r.res}
+        failed == (expU /\ r.authU = "no") \/ (expO /\ r.authO = "no") \/ ~opened \/ bads # {}
+        variantFails == exp /\ nopanic /\ failed /\ r.canonOpens = "yes"
+        identityOnly == \A b \in bads : Subject(r.cfg, b) /\ MethodOf(r.cfg, b) = "Identity"
         consistent == /\ ValidCfg(r.cfg) /\ bads \subseteq ItemKinds /\ r.dlen \in LegalLengths(r.cfg)
+                      /\ r.form \in Forms(r.cfg) /\ r.feature \in Features
                       /\ ("expUser" \in DOMAIN r) => (r.expUser = expU /\ r.expOwner = expO)
         v == IF ~consistent THEN "spec-inconsistent"
              \* a Length entry in another legal form than the canonical one, the same attempt succeeds with the canonical form
              ELSE IF exp /\ LenClass(r.cfg, r.dlen) # "none" /\ r.canonOpens = "yes" /\ "panic" \notin {r.authU, r.authO, r.res}
                      /\ ((expU /\ r.authU = "no") \/ (expO /\ r.authO = "no") \/ ~opened \/ bads # {})
              THEN "length." \o LenClass(r.cfg, r.dlen)                       \* Table 20: the entry does not apply / has its default
+             \* another legal form of the dictionary / optional content, and the canonical document opens with this password
+             ELSE IF variantFails /\ r.form = "enc.direct" THEN "encrypt-dictionary.direct"      \* Table 15: "dictionary"
+             ELSE IF variantFails /\ r.form = "em.false" /\ (opened => bads \subseteq {"stream.meta"})
+             THEN "encryptmetadata.below-V4"                                \* Table 20: meaningful only when V is 4 or 5
+             ELSE IF variantFails /\ r.feature = "sig" /\ (opened => bads \subseteq {"str.sigcontents"})
+             THEN "signature.contents"
+             ELSE IF variantFails /\ r.feature = "crypt" /\ (opened => bads \subseteq {"stream.cryptid"})
+             THEN "crypt-filter.no-params"
+             \* the Identity filter, named or by default (Table 20: StmF / StrF default Identity): what it covers is changed
+             ELSE IF exp /\ nopanic /\ opened /\ bads # {} /\ identityOnly /\ r.form \in {"canon", "stmf.absent", "strf.absent"}
+             THEN "identity-filter.V" \o ToString(r.cfg.V)
              ELSE IF "panic" \in {r.authU, r.authO, r.res} THEN "panic." \o cfgs
              ELSE IF HistoryClass(r, <<r.user, r.owner, r.try>>) /\ "panic" \notin {r.authU, r.authO, r.res}
                      /\ (((r.authU = "yes") # expU /\ r.authU # "na") \/ ((r.authO = "yes") # expO /\ r.authO # "na")
